@@ -51,6 +51,7 @@ Proof.
     injection H as H. subst d'. unfold covered. cbn [d_bolt d_nb]. lia.
   - need_up H Hup. injection H as H. subst d'. unfold covered. cbn [d_bolt d_nb]. lia.
   - need_up H Hup. injection H as H. subst d'. unfold covered. cbn [d_bolt d_nb]. lia.
+  - need_up H Hup. injection H as H. subst d'. unfold covered. cbn [d_bolt d_nb]. lia.
   - destruct (crash_shape d d' H) as [_ [_ [_ [_ [_ [_ Hc]]]]]]. lia.
   - destruct (recover_shape d d' H) as [n [r [_ [En [_ [_ Hd]]]]]]. subst d'.
     unfold covered at 2. unfold recovered. cbn [d_bolt d_nb]. rewrite En, assocZ_cons_eq. lia.
@@ -58,10 +59,10 @@ Qed.
 
 (* what a step does to the list of acknowledgements *)
 Lemma acked_step : forall ef d ev d',
-  DInv ef d -> dstep d ev = Some d' ->
+  DInv ef d -> is_rollback ev = false -> dstep d ev = Some d' ->
   d_acked d' = d_acked d \/ exists k, d_acked d' = k :: d_acked d /\ (k <= covered d)%nat.
 Proof.
-  intros ef d ev d' I H. destruct ev.
+  intros ef d ev d' I Hnr H. destruct ev; cbn [is_rollback] in Hnr; try discriminate.
   - left. cbn [dstep] in H. destruct (negb (d_up d)); [discriminate|].
     destruct (step (d_core d) e); [|discriminate].
     match type of H with (if ?c then _ else _) = _ => destruct c end; [|discriminate].
@@ -97,11 +98,9 @@ Proof.
     injection H as H. subst d'. reflexivity.
   - left. need_up H Hup. injection H as H. subst d'. reflexivity.
   - left. need_up H Hup. injection H as H. subst d'. reflexivity.
+  - left. need_up H Hup. injection H as H. subst d'. reflexivity.
   - left. cbn [dstep] in H. injection H as H. subst d'. reflexivity.
   - left. destruct (recover_shape d d' H) as [n [r [_ [_ [_ [_ Hd]]]]]]. subst d'. reflexivity.
-  - left. cbn [dstep] in H. destruct (d_up d); [discriminate|].
-    match type of H with (if ?c then _ else _) = _ => destruct c end; [|discriminate].
-    injection H as H. subst d'. reflexivity.
 Qed.
 
 Lemma acks_since_run : forall post ef d0 d,
@@ -117,16 +116,15 @@ Proof.
     assert (Hm := covered_mono_step ef d0 ev d1 I Hnr1 Hs).
     destruct (IH _ d1 d I1 Hnr Hrun) as [Hm1 [new [Hnew Hle]]].
     split; [lia|].
-    destruct (acked_step ef d0 ev d1 I Hs) as [Ha|[k [Ha Hk]]].
+    destruct (acked_step ef d0 ev d1 I Hnr1 Hs) as [Ha|[k [Ha Hk]]].
     + exists new. rewrite Hnew, Ha. split; [reflexivity | exact Hle].
     + exists (new ++ [k]). rewrite Hnew, Ha, <- app_assoc. split; [reflexivity|].
       intros k0 Hk0. apply in_app_or in Hk0. destruct Hk0 as [Hk0|[Hk0|[]]]; [exact (Hle k0 Hk0)|].
       subst k0. lia.
 Qed.
 
-(* acked_survive with rollbacks tracked precisely: every batch acknowledged since the last
-   rollback is covered by the newest committed record (and stays so across crashes and
-   recoveries); only a rollback can discard an acknowledged batch *)
+(* between rollbacks what is covered only grows and acknowledgements are only added, each covered
+   when it is added: only a rollback can discard an acknowledged batch *)
 Theorem acked_since_rollback_survive : forall pre post d0 d,
   drun dinit pre = Some d0 -> no_rollback post = true -> drun d0 post = Some d ->
   (covered d0 <= covered d)%nat
@@ -171,6 +169,7 @@ Proof.
     injection H as H. subst d'. intros _. exact (P Hup).
   - need_up H Hup. injection H as H. subst d'. intros _. exact (P Hup).
   - need_up H Hup. injection H as H. subst d'. intros _. exact (P Hup).
+  - need_up H Hup. injection H as H. subst d'. intros _. exact (P Hup).
   - cbn [dstep] in H. injection H as H. subst d'. intros Hf. discriminate.
   - destruct (recover_shape d d' H) as [n [r [_ [_ [_ [_ Hd]]]]]]. subst d'. intros _.
     unfold recovered. cbn [d_core d_pub epoch root internal]. apply assocZ_cons_eq.
@@ -211,4 +210,43 @@ Proof.
   { apply nodupZ_NoDup. unfold named_by. cbn [br_segs]. rewrite map_map. cbn [fst].
     exact (inv_sids_nodup _ Ic). }
   rewrite Hnd. discriminate.
+Qed.
+
+(* ---------- clean close / idempotent recovery ---------- *)
+
+(* clean_close: if the newest committed record covers every batch introduced (the persister has
+   caught up — in particular after Close, which waits for it), reopening shows exactly the
+   contents the index had *)
+Theorem clean_close : forall evs d d1 d2,
+  drun dinit evs = Some d -> d_up d = true -> covered d = d_batches d ->
+  dstep d DCrash = Some d1 -> dstep d1 DRecover = Some d2 ->
+  forall id, root_lookup (root (d_core d2)) id = root_lookup (root (d_core d)) id.
+Proof.
+  intros evs d d1 d2 Hrun Hup Hcov Hc Hr id.
+  assert (I := reachable_DInv evs d Hrun).
+  rewrite (crash_recovers_prefix evs d Hrun d1 d2 Hc Hr id), (di_root _ d I Hup id).
+  rewrite Hcov, (di_batches _ d I), firstn_all. reflexivity.
+Qed.
+
+(* right after a recovery the persister has trivially caught up, so recovering again (crash
+   before anything else happens) changes nothing *)
+Theorem recovery_idempotent : forall evs d d1,
+  drun dinit evs = Some d -> dstep d DRecover = Some d1 ->
+  d_up d1 = true /\ covered d1 = d_batches d1
+  /\ forall d2 d3, dstep d1 DCrash = Some d2 -> dstep d2 DRecover = Some d3 ->
+       forall id, root_lookup (root (d_core d3)) id = root_lookup (root (d_core d1)) id.
+Proof.
+  intros evs d d1 Hrun Hr.
+  destruct (recover_shape d d1 Hr) as [n [r [_ [En [_ [_ Hd]]]]]].
+  assert (Hup : d_up d1 = true) by (subst d1; reflexivity).
+  assert (Hcov : covered d1 = d_batches d1).
+  { subst d1. unfold covered at 1. unfold recovered. cbn [d_bolt d_nb d_batches].
+    rewrite En, assocZ_cons_eq. reflexivity. }
+  split; [exact Hup|]. split; [exact Hcov|].
+  intros d2 d3 Hc Hr2 id.
+  assert (Hrun1 : drun dinit (evs ++ [DRecover]) = Some d1).
+  { clear - Hrun Hr. revert Hrun. generalize dinit. induction evs as [|ev evs IH]; intros d0 Hrun; cbn [drun app] in *.
+    - injection Hrun as Hrun. subst d0. rewrite Hr. reflexivity.
+    - destruct (dstep d0 ev) as [d'|]; [|discriminate]. exact (IH d' Hrun). }
+  exact (clean_close (evs ++ [DRecover]) d1 d2 d3 Hrun1 Hup Hcov Hc Hr2 id).
 Qed.
